@@ -26,11 +26,29 @@ func (P *Prog) numericCoercers() map[*ssa.Function]string {
 				return
 			}
 			var target *ssa.Function
-			switch v := st.Val.(type) {
+			var extra []*ssa.Function // functions and closures handed to a coercer factory
+			switch v := cvi(st.Val).(type) {
 			case *ssa.MakeClosure:
 				target, _ = v.Fn.(*ssa.Function)
 			case *ssa.Function:
 				target = v
+			case *ssa.Call:
+				// a coercer assembled by a closure factory (`narrowingCoercer(wide, narrow)`)
+				if fac := callOf(v).static; fac != nil && fac.Blocks != nil && inModule(funcPkgPath(fac)) {
+					if cl := returnedClosure(fac); cl != nil {
+						target = cl
+						for _, a := range v.Call.Args {
+							switch y := cv(a).(type) {
+							case *ssa.Function:
+								extra = append(extra, y)
+							case *ssa.MakeClosure:
+								if g, ok := y.Fn.(*ssa.Function); ok {
+									extra = append(extra, g)
+								}
+							}
+						}
+					}
+				}
 			}
 			if target == nil || target.Blocks == nil {
 				return
@@ -40,6 +58,13 @@ func (P *Prog) numericCoercers() map[*ssa.Function]string {
 				return
 			}
 			owner := P.fieldOwner(f)
+			if owner != nil && owner.Obj().Name() == "NumberSchema" && P.roleName(f) == "coercer" {
+				for _, e := range extra {
+					if e.Blocks != nil && inModule(funcPkgPath(e)) {
+						out[originOf(e)] = "handed to the coercer factory in " + fname(fn)
+					}
+				}
+			}
 			switch {
 			case owner != nil && owner.Obj().Name() == "NumberSchema" && P.roleName(f) == "coercer":
 				out[originOf(target)] = "NumberSchema.coercer set in " + fname(fn)
